@@ -67,6 +67,8 @@ for s in allseeds:
         nb += 1
         nd += 1 if det else 0
         verdict = ", ".join(det) or ("**MISSED**" if "_apply" not in r else r["_apply"])
+        if not det and meta.get("note"):
+            first = meta["note"]
     lines.append("| %s | %s | %s | %s | %s |" % (s, "benign" if benign else "breaking", tgt, verdict, first.replace("|", "\\|")[:200]))
 lines.insert(3, "Totals: %d/%d breaking seeds detected, %d/%d benign refactors silent." % (nd, nb, ns, ng))
 open(V + "/seeded/MATRIX.md", "w").write("\n".join(lines) + "\n")
